@@ -135,7 +135,7 @@ def query_params(e):
 
 def call_kwargs(c, return_utilities=True, variant=0):
     """variant 0: default call; 1: model passed pre-fitted with fit_*=False; 2: sample_weight given;
-    3: pre-fitted + utility_weight (where the strategy has these parameters)."""
+    3: pre-fitted + utility_weight (where the strategy has these parameters); 4: X, y, candidates as nested lists."""
     e = c.entry
     kw = dict(e.kwargs(c.ctx))
     qp = query_params(e)
@@ -161,6 +161,11 @@ def call_kwargs(c, return_utilities=True, variant=0):
     kw.update(X=c.X.copy(), y=c.y.copy(),
               candidates=None if c.candidates is None else c.candidates.copy(),
               batch_size=c.bs, return_utilities=return_utilities)
+    if variant == 4:
+        # array-like means array-like: nested Python lists for X, y and the candidates
+        kw["X"], kw["y"] = kw["X"].tolist(), kw["y"].tolist()
+        if kw["candidates"] is not None:
+            kw["candidates"] = kw["candidates"].tolist()
     return kw
 
 
